@@ -118,6 +118,22 @@ func genCircuitIDs(shapes []string) *rapid.Generator[[][]byte] {
 				b2 := b1 ^ byte(rapid.IntRange(1, 255).Draw(t, "flip"))
 				add(append(append([]byte{}, pre...), b1))
 				add(append(append([]byte{}, pre...), b2))
+			case "zero-split": // binary ids (<= 32 bytes) that are equal up to and including their first zero byte
+				pre := nonZeroBytes(t, 0, 12, "pre")
+				x, y := differentTails(t, 1, 31-len(pre), rapid.Bool().Draw(t, "sameLen"))
+				add(cat(pre, []byte{0}, x))
+				add(cat(pre, []byte{0}, y))
+			case "binary-tlv": // type 0, length 4, VLAN, slot, port: two ports of one line card
+				v := rapid.IntRange(0, 4095).Draw(t, "vlan")
+				s, p := byte(rapid.IntRange(0, 16).Draw(t, "slot")), byte(rapid.IntRange(0, 254).Draw(t, "port"))
+				add([]byte{0x00, 0x04, byte(v >> 8), byte(v), s, p})
+				add([]byte{0x00, 0x04, byte(v >> 8), byte(v), s, p + 1})
+			case "last-byte": // differ only in the last byte
+				a := rapid.SliceOfN(rapid.Byte(), 1, 32).Draw(t, "a")
+				b := append([]byte(nil), a...)
+				b[len(b)-1] ^= byte(rapid.IntRange(1, 255).Draw(t, "flip"))
+				add(a)
+				add(b)
 			case "fnv-collision":
 				p := rapid.SampledFrom(fnvCollisions).Draw(t, "pair")
 				add([]byte(p[0]))
@@ -141,7 +157,7 @@ func TestPropCircuitIDKeys(t *testing.T) {
 	}
 	rapid.Check(t, func(rt *rapid.T) {
 		// shapes whose (listed) key sharing ends a case at the second lease are drawn in a third of the cases only
-		shapeSet := []string{"random", "random", "text", "key-boundary"}
+		shapeSet := []string{"random", "random", "text", "key-boundary", "zero-split", "binary-tlv", "last-byte"}
 		special := rapid.Bool().Draw(rt, "specialShapes")
 		for _, sh := range []struct{ shape, sig string }{{"long-common-prefix", sigCidTrunc}, {"prefix-of-long", sigCidTrunc}, {"trailing-zeros", sigCidPad}, {"fnv-collision", sigCidFNV}} {
 			if !vstat.IsListed(sh.sig) || special {
@@ -170,6 +186,12 @@ func TestPropCircuitIDKeys(t *testing.T) {
 				}
 				if bngebpf.HashCircuitID(cids[i]) == bngebpf.HashCircuitID(cids[j]) {
 					shapes["pair-sharing-hash-key"] = true
+				}
+				if z := bytes.IndexByte(cids[i], 0); z >= 0 && len(cids[j]) > z && bytes.Equal(cids[i][:z+1], cids[j][:z+1]) {
+					shapes["pair-equal-up-to-first-zero"] = true
+				}
+				if n := len(cids[i]); n == len(cids[j]) && bytes.Equal(cids[i][:n-1], cids[j][:n-1]) {
+					shapes["pair-differing-in-last-byte-only"] = true
 				}
 			}
 		}
@@ -202,13 +224,20 @@ func TestPropCircuitIDKeys(t *testing.T) {
 					if err != nil {
 						for j := range subs {
 							if j != i && bngebpf.HashCircuitID(subs[i].cid) == bngebpf.HashCircuitID(subs[j].cid) {
-								return !h.fail(rt, "hash-key-shared/fnv1a64-collision", "after %s: circuit-id %d (%q) is in use but its entry is gone (%v): circuit-id %d (%q) has the same HashCircuitID %016x and was expired", op, i, subs[i].cid, err, j, subs[j].cid, bngebpf.HashCircuitID(subs[i].cid))
+								return !h.fail(rt, "hash-key-shared/"+hashShareKind(subs[i].cid, subs[j].cid), "after %s: circuit-id %d (%q) is in use but its entry is gone (%v): circuit-id %d (%q) has the same HashCircuitID %016x and was expired (independent FNV-1a-64: %016x / %016x)", op, i, subs[i].cid, err, j, subs[j].cid, bngebpf.HashCircuitID(subs[i].cid), fnv64(subs[i].cid), fnv64(subs[j].cid))
 							}
 						}
 						return !h.fail(rt, "hash-key-lost/"+op, "after %s: circuit-id %d (%x) is in use but GetCircuitIDMapping fails: %v", op, i, subs[i].cid, err)
 					}
 					if got != subs[i].mac {
-						return !h.fail(rt, "hash-key-shared/fnv1a64-collision", "after %s: looking up circuit-id %d (%q) returns MAC %012x of another subscriber: HashCircuitID = %016x for both", op, i, subs[i].cid, got, bngebpf.HashCircuitID(subs[i].cid))
+						// whose MAC is it?  Only a pair that the independent FNV-1a-64 also maps to one value is the listed collision.
+						kind := "not-an-fnv1a64-collision"
+						for j := range subs {
+							if j != i && subs[j].mac == got {
+								kind = hashShareKind(subs[i].cid, subs[j].cid)
+							}
+						}
+						return !h.fail(rt, "hash-key-shared/"+kind, "after %s: looking up circuit-id %d (%q) returns MAC %012x of another subscriber: HashCircuitID = %016x (independent FNV-1a-64 of this id: %016x)", op, i, subs[i].cid, got, bngebpf.HashCircuitID(subs[i].cid), fnv64(subs[i].cid))
 					}
 				}
 			}
